@@ -167,6 +167,9 @@ func (h *c17H) targetFamilies(src []string, n int, full bool) error {
 		rows := rowsToHit
 		if !full {
 			rows = []int{rowsToHit[r.Intn(len(rowsToHit))]}
+		} else if !h.c.Thorough() && len(rowsToHit) > 2 {
+			drop := r.Intn(len(rowsToHit))
+			rows = append(append([]int{}, rowsToHit[:drop]...), rowsToHit[drop+1:]...)
 		}
 		for _, row := range rows {
 			row := row
@@ -322,10 +325,16 @@ func (h *c17H) generate() error {
 	b := database.VerifSQLiteBatchSize
 
 	// 1. small stores, every scenario
-	nFull := c.Pick(2, 10)
-	nPart := c.Pick(8, 60)
+	nFull := c.Pick(2, 6)
+	nPart := c.Pick(8, 36)
 	kinds := []string{"mixed", "reorg", "mixed", "plain", "shuffled"}
 	for i := 0; i < nFull+nPart; i++ {
+		if h.leaks > 14000 {
+			// database.Init does not close its connection when it fails (the service exits then); this process keeps
+			// those descriptors, so the number of refused starts per run is bounded by the descriptor limit
+			c.Meta("generation_truncated", fmt.Sprintf("after %d stores: %d refused in-process starts", i, h.leaks))
+			break
+		}
 		kind := kinds[i%len(kinds)]
 		n := 1 + r.Intn(60)
 		if i == 0 {
